@@ -5,6 +5,7 @@ from __future__ import annotations
 import numpy as np
 
 from .. import core, family, parity
+from . import c07b
 
 LEVEL = "exploration"
 JOINTS = ("weld", "free", "ball", "hinge", "slide", "hinge2", "slidehinge", "ballslide")
@@ -75,10 +76,18 @@ def run(ctx: core.Ctx):
   recs = [r for r in recs if {"sens_pos", "sens_vel", "sens_acc", "energy"} & set(r["c"]["feats"])][:n]
   ctx.traces_validated = len(recs)
   parity.run(ctx, __name__, "compare", recs, nworld=2, opts={"tol": 1e-4}, what="sensor / energy differs from MuJoCo C")
+  # part B: sensors that read the contact list, rays and geom distances (own scene, ContactSensor.tla)
+  c07b.run_part(ctx)
+  ctx.assumptions += ["part B (contact-list sensors): one designed scene of 4 bodies / 6 geoms / 5 contacts at distinct depths, every criterion pair of a contact sensor three-way "
+                      "(ContactSensor.tla, MuJoCo, MJWarp); touch, rangefinder, distance / normal / fromto and contact sensors with random data fields, reduce modes, num and "
+                      "cutoffs against MuJoCo (5e-3 of the force scale for force-valued outputs, 2e-4 otherwise); reduce=none compared as a set of slots and only when every match fits"]
   ctx.assumptions += ["MuJoCo C is the oracle; 1e-4 relative for position/velocity-stage sensors, 5e-4 for acceleration-stage sensors, 5e-3 when constraint rows are active (solver output, the repository's own tolerance)"]
 
 
 def replay(ctx, scen):
+  if "cfg" not in scen["scenario"]:  # a scenario of part B: the part is cheap, run it whole
+    c07b.run_part(ctx)
+    return
   rec = {"c": scen["scenario"]["cfg"]}
   for res in parity.chunk((__name__, "compare", [rec], scen.get("seed", ctx.seed), 2, {"tol": 1e-4})):
     ctx.case(rec)
@@ -88,7 +97,10 @@ def replay(ctx, scen):
 
 META = {
   "text": "TLC (-simulate over ModelFamily.tla) generates model configurations x sensor-group / cutoff / energy features; each is concretised and every "
-          "sensor's output and the potential/kinetic energy after forward() are compared with mj_forward in every world.",
-  "note": "float comparison against MuJoCo C; sensors that need contacts (touch, contact, rangefinder, geom distance) are not generated here",
-  "technique": "TLA+ model family (ModelFamily.tla) enumerated by TLC; spec->code replay with MuJoCo C as numeric oracle",
+          "sensor's output and the potential/kinetic energy after forward() are compared with mj_forward in every world. Part B: ContactSensor.tla states which "
+          "contacts a contact sensor reports and with which sign for every criterion pair (geom / body / subtree / site x geom / body / subtree); TLC checks its laws "
+          "over all forests of <= 4 bodies (the implementations' parent walk is the ancestor relation) and emits the expected reports for the replay scene; every "
+          "sensor is built and compared three-way; touch, rangefinder, geom distance sensors and contact sensors with reduce modes are compared with MuJoCo.",
+  "note": "float comparison against MuJoCo C; contact-list sensors in one designed scene (tactile sensors and camera projection are not generated)",
+  "technique": "TLA+ model family (ModelFamily.tla) enumerated by TLC + contact-sensor semantics (ContactSensor.tla) model-checked and enumerated; spec->code replay, MuJoCo C as numeric oracle (three-way for contact sensors)",
 }
